@@ -139,7 +139,7 @@ impl Stats {
         let e = self.known_hits.entry(signature.to_string()).or_insert((0, String::new()));
         e.0 += 1;
         if e.1.is_empty() {
-            e.1 = truncate(&render(), 300);
+            e.1 = truncate(&render(), 160);
         }
     }
     pub fn merge(&mut self, o: Stats) {
